@@ -88,6 +88,12 @@ func runReader(c *ctx) {
 	}
 	withErr := tp.Bool(1, 3)
 	sr := kernel.NewSimReader(tp, rc.Stats, data, withErr)
+	if tp.Bool(1, 8) {
+		// A wrapped reader that breaks the io.Reader contract with a negative
+		// count now and then.  What Read returns for such a call is not
+		// specified; the limits must hold all the same afterwards.
+		sr.NegativeCounts = 6
+	}
 	lr := ioutil.LimitReader(sr, n)
 	c.logf("reader: stream=%d limit=%d chunk=%d zero=%v data+eof=%v errAt=%d sticky=%v errData=%v",
 		l, n, sr.MaxChunk, sr.ZeroReads, sr.DataEOF, sr.ErrAt, sr.ErrSticky, sr.ErrData)
@@ -146,8 +152,13 @@ func runReader(c *ctx) {
 
 		var sum uint64
 		var underErr error
-		sawErr := false
+		sawErr, sawNegative := false, false
 		for _, uc := range calls {
+			if uc.N < 0 {
+				// Nothing was delivered by this call.
+				sawNegative = true
+				uc.N = 0
+			}
 			allowance := n - under
 			if uint64(uc.Buf) > allowance {
 				rc.Fail("over-request", "LimitReader.Read", fmt.Sprintf(
@@ -160,6 +171,29 @@ func runReader(c *ctx) {
 			if uc.Err != nil {
 				underErr, sawErr = uc.Err, true
 			}
+		}
+		if sawNegative {
+			// Unspecified result: only sanity and the limits are checked.
+			if got < 0 || got > bufLen || uint64(got) > sum {
+				rc.Fail("count", "LimitReader.Read", fmt.Sprintf(
+					"Read(buf %d) returned n=%d after the wrapped reader returned a negative count (it delivered %d bytes)", bufLen, got, sum))
+
+				return
+			}
+			if !bytes.Equal(p[:got], data[delivered:delivered+uint64(got)]) {
+				rc.Fail("not-prefix", "LimitReader.Read", "bytes delivered after a negative count are not the stream's")
+
+				return
+			}
+			if uint64(got) != sum {
+				// Bytes were consumed but not delivered: the prefix relation
+				// can no longer be followed; stop this run here.
+				return
+			}
+			delivered += uint64(got)
+			c.nonTriv = true
+
+			continue
 		}
 		if got < 0 || got > bufLen || uint64(got) != sum {
 			rc.Fail("count", "LimitReader.Read", fmt.Sprintf(
